@@ -45,6 +45,19 @@ CHECKS = {
         'note': 'Trusted: TLC, SimNet. Byte-exhaustive cut positions are covered by C03; several requests in one segment by C04.',
         'technique': 'TLA+ reference parser + Expected relation (TraceForward) deciding recorded conversations of the real forward proxy',
     },
+    'C04': {
+        'text': 'Design model Persist.tla (client script of 1..3 requests naming origin/route a or b, bytes cut into units, ANY packing of '
+                'units into segments, origins answering at their own pace, head-of-line relaying) checked exhaustively by TLC for '
+                'OneResponsePerRequestInOrder, RightOrigin and, under fairness, AllAnswered. tlc -simulate behaviours (free packing/timing '
+                'and polite clients) are executed as environment schedules against the REAL handler in four roles (forward proxy, web '
+                'server with two route plugins, reverse proxy with two upstream routes, reverse proxy mixing an upstream route with a '
+                'self-answered route); TLC (TracePersist) compares the settled outcome with Expected(script).',
+        'design_ref': 'DESIGN.md section 6, C04',
+        'note': 'Trusted: TLC, SimNet. Three design-level defects are listed as known findings (requests sharing a segment; forward proxy '
+                'follow-up to another origin; reverse proxy with overlapping requests) and mask other violations inside exactly those classes.',
+        'technique': 'TLA+ design model (Persist, safety + liveness) + TLC-generated schedules executed on the real handler in four roles + '
+                     'TLC trace validation (TracePersist)',
+    },
     'C08': {
         'text': 'Authorized(headers, credentials) is defined in TLA+ (TraceAuth) from the RAW configured user:password (base64 computed in '
                 'TLA+) and the reference parse of the client bytes. Every credential situation (absent, scheme casings, other schemes, '
